@@ -92,8 +92,14 @@ func (c *relsCtx) step(op Op, i int) string {
 		c.inp = relsSynth(pkg, op.Bool("abs"))
 		return c.open(c.inp, op.Str("via") == "file", "foreign")
 	case "AddImage":
-		img := tinyPNG(n)
-		name := fmt.Sprintf("pic%d.png", n)
+		// the picture handed over (class pic): PNG named x.png, JPEG named x.jpg, GIF named X.GIF
+		img, name, ifmt, ext := tinyPNG(n), fmt.Sprintf("pic%d.png", n), document.ImageFormatPNG, ".png"
+		switch op.Str("pic") {
+		case "jpg":
+			img, name, ifmt, ext = tinyJPEGSize(n, 2, 2), fmt.Sprintf("pic%d.jpg", n), document.ImageFormatJPEG, ".jpg"
+		case "gifcap":
+			img, name, ifmt, ext = tinyGIFSize(n, 2, 2), fmt.Sprintf("PIC%d.GIF", n), document.ImageFormatGIF, ".GIF"
+		}
 		switch op.Str("where") {
 		case "cell":
 			t := c.table()
@@ -101,7 +107,7 @@ func (c *relsCtx) step(op Op, i int) string {
 				return "err-table"
 			}
 			if op.Str("via") == "file" {
-				p := c.tmp("cellimg", ".png")
+				p := c.tmp("cellimg", ext)
 				os.WriteFile(p, img, 0o644)
 				return relsInfoRet(d.AddCellImageFromFile(t, n%2, (n/2)%2, p, 10))
 			}
@@ -110,14 +116,14 @@ func (c *relsCtx) step(op Op, i int) string {
 			}
 			return relsInfoRet(d.AddCellImageFromData(t, n%2, (n/2)%2, img, 10))
 		case "resource":
-			return relsInfoRet(d.AddImageFromDataWithoutElement(img, name, document.ImageFormatPNG, 2, 2, nil))
+			return relsInfoRet(d.AddImageFromDataWithoutElement(img, name, ifmt, 2, 2, nil))
 		default:
 			if op.Str("via") == "file" {
-				p := c.tmp("img", ".png")
+				p := c.tmp("img", ext)
 				os.WriteFile(p, img, 0o644)
 				return relsInfoRet(d.AddImageFromFile(p, nil))
 			}
-			return relsInfoRet(d.AddImageFromData(img, name, document.ImageFormatPNG, 2, 2, nil))
+			return relsInfoRet(d.AddImageFromData(img, name, ifmt, 2, 2, nil))
 		}
 	case "AddHeader":
 		return errRet(d.AddHeader(kind, hfText))
